@@ -26,7 +26,7 @@ func propSpecs() map[string]*PropSpec {
 	for k := int64(0); k < 56; k++ {
 		lib = append(lib, rs("H_Lib", k, 2))
 	}
-	for k := int64(0); k < 24; k++ {
+	for k := int64(0); k < 26; k++ {
 		if k == 13 {
 			continue // bare go statements: not supported by the engine (threads only through verif.Par)
 		}
@@ -42,10 +42,10 @@ func propSpecs() map[string]*PropSpec {
 		Quick: []RunSpec{rs("H_C09", 0, 0), rs("H_C09", 1, 0), rs("H_C09", 2, 0), rs("H_C09", 3, 0), rs("H_C09", 3, 1), rs("H_C09", 6, 2), rs("H_C09", 5, 3), rs("H_C09", 4, 4), rs("H_C09", 4, 6), rs("H_C09", 8, 8)},
 		Thorough: []RunSpec{rs("H_C09", 0, 0), rs("H_C09", 1, 0), rs("H_C09", 2, 0), rs("H_C09", 3, 0), rs("H_C09", 4, 0),
 			rs("H_C09", 4, 1), rs("H_C09", 8, 2), rs("H_C09", 7, 3), rs("H_C09", 6, 4), rs("H_C09", 5, 6), rs("H_C09", 9, 8)},
-		Covers: []string{"has-token", "two-tokens", "number", "string", "quoted-ident", "error-token", "ident"},
+		Covers: []string{"has-token", "two-tokens", "number", "string", "quoted-ident", "error-token", "ident", "float-value-checked", "hex-number"},
 		Bounds: map[string]string{"quick": "all byte strings of length <= 3 (full byte range); focused alphabets: numbers <= 3, strings/escapes <= 6, names/backticks/comments <= 5, operators <= 4, layout and odd bytes <= 4, two-literal alphabet {quote backslash t newline a} <= 8",
 			"thorough": "all byte strings of length <= 4 (full byte range); numbers <= 4, strings <= 8, names <= 7, operators <= 6, layout <= 5"},
-		Outside: []string{"sources longer than the bound", "BasicLit.Float64 and Uint64 of float literals (floating point)", "string values containing invalid UTF-8 together with an escape (don't-care)"},
+		Outside: []string{"sources longer than the bound", "BasicLit.Float64/Uint64 of float literals whose value needs more than one rounding step (decimal exponent beyond +-22 or mantissa >= 2^53); the others are decided per concrete spelling (floating point is outside the solver's theories: the spelling is enumerated, the accessor executed concretely)", "string values containing invalid UTF-8 together with an escape (don't-care)"},
 		Stubs:   []string{"unicode.IsSpace -> models.IsSpace (validated against the real table)", "utf8 decode/encode: engine model of the Go specification", "strings.{TrimLeft,ReplaceAll,ContainsAny} -> models", "strconv.{ParseUint,FormatUint} -> models", "fmt.Sprintf: error texts opaque"},
 	})
 	deep := func(n int64, budget int, fams ...int64) []RunSpec {
@@ -192,7 +192,7 @@ func propSpecs() map[string]*PropSpec {
 		Covers:   []string{"content-admitted", "compiled", "decoded"},
 		Bounds: map[string]string{"quick": "19 content positions (strings in where/in/call/let/render value; backtick names as table, join table, column, project/extend/summarize alias, as name, chart type, render property, qualified part; unquoted identifier; number; implicit column name) x every content of <= 3 bytes (full byte range for quoted kinds) admitted by the real lexer inside that one token; <= 4 bytes at two positions; 19 dictionary contents (true, null, count, $left, SQL fragments, ...) at every quoted position",
 			"thorough": "<= 4 bytes everywhere, <= 5 at six positions"},
-		Outside: []string{"contents longer than the bound (the emitters are byte-wise loops without cross-byte state; argued, not part of the bounded claim)", "decoding under standard-SQL rules of values containing backslashes (structure is required under both lexers, value fidelity under ClickHouse rules)", "numeric value equality between the PQL spelling and its normalised form beyond C09's hex/decimal check"},
+		Outside: []string{"contents longer than the bound (the emitters are byte-wise loops without cross-byte state; argued, not part of the bounded claim)", "decoding under standard-SQL rules of values containing backslashes (structure is required under both lexers, value fidelity under ClickHouse rules)"},
 		Stubs:   []string{"nothing stubbed: real Scan, Parse, Compile on symbolic bytes"},
 		Assume:  []string{"two independent SQL lexers (harness/h/sqllex.go); ClickHouse backslash-escape rules as transcribed there"},
 	})
